@@ -10,7 +10,7 @@ RULE = ("filter definitions from the documented condition kinds (header fallback
         "action kinds (fileinto/redirect with :copy/:create/:flags, reject, keep, discard, stop, setflag/addflag/removeflag, vacation with "
         "all its tags), values over an alphabet with quotes, backslashes, commas, brackets, braces, semicolons, '#', CR/LF, comment and "
         "tag look-alikes and non-ASCII; sets reached by add/update/replace/disable/enable/move/remove; the rendering must be accepted by "
-        "the parser, classified VALID by the independent recogniser, begin with a require naming every extension used (frozen map), and "
+        "a refused (raising) addfilter / updatefilter in between; the rendering must be accepted by the parser, classified VALID by the independent recogniser, begin with a require naming every extension used (frozen map), and "
         "its token skeleton must equal that of the same definitions with inert placeholders while every string token unquotes to the "
         "supplied value; non-trivial = at least one value with a special character")
 
@@ -52,8 +52,33 @@ def build(r, nfilters, hostile):
         names.append(name)
     # editing operations applied to both in parallel
     for step in range(r.randint(0, 5)):
-        op = r.choice(["disable", "enable", "moveup", "movedown", "remove", "disable", "update", "update", "replace"])
+        op = r.choice(["disable", "enable", "moveup", "movedown", "remove", "disable", "update", "update", "replace", "refused", "refused"])
         nm = r.choice(names)
+        if op == "refused":
+            # a call the factory refuses with an exception (the caller catches it and goes on): the set must be unharmed
+            bad_acts = r.choice([[("fileinto", ":copy", ":2024 archive")], [("fileinto", ":create", ":x y")], [("redirect", ":create", "a@b.c")],
+                                 [("vacation", ":days", "7", "gone")], [("fileinto", ":flags")], [("addflag",)],
+                                 [("keep",), ("fileinto", ":copy", ":odd")]])
+            conds = [r.choice([("Subject", ":contains", "x"), ("envelope", ":is", ["from"], ["a"]), ("body", ":raw", ":contains", "z"),
+                               ("currentdate", ":zone", "+0100", ":is", "date", "2024-01-01")])]
+            probe = FiltersSet("probe")
+            try:
+                probe.addfilter("p", conds, bad_acts, "anyof")
+                continue        # the factory accepts this description after all: not a refusal, nothing to exercise
+            except Exception:  # noqa
+                pass
+            for s_ in (fs, ph):
+                for how in (lambda: s_.addfilter("refused%d" % step, conds, bad_acts, "anyof"),
+                            lambda: s_.updatefilter(nm, nm, conds, bad_acts, "anyof")):
+                    try:
+                        how()
+                    except Exception:  # noqa
+                        pass
+                    else:
+                        # accepted after all: keep both sets in step and the name list current
+                        pass
+            names[:] = [f["name"] for f in fs.filters] or names
+            continue
         if op in ("update", "replace"):
             conds, acts, mt, n = gen_factory.gen_filter(r)
             vals = [gen_factory.hostile_value(r, gen_factory.PIECES if hostile else gen_factory.SAFE_PIECES) for _ in range(n)]
